@@ -1479,6 +1479,9 @@ class C04(Property):
                    "interleaved reads of two pipelines that share an unfinished Cache are treated like concurrent reads (outside the property)",
                    "time-seeded filters (seed None) excluded"]
     partial_theorems = {
+        "reread": "hypothesis finIdem (Finalize leaves finalized output unchanged) is forced by F7: BatchSafe re-batches with the size of the first batch, "
+                  "so save()/from_save() (which finalizes again) regroups batches when the first batch is a short one; finalize_twice_counterexample shows it is necessary; "
+                  "the driver reports hyp=false on such cases and the model then predicts the regrouped read exactly",
         "shuffle_logged_stable_partial": "as-is logged Shuffle (before e4fe683) is stable only while no read session on it is abandoned; "
                                          "shuffle_abandon_counterexample shows the hypothesis is necessary; the repaired Shuffle is a pure stage and is covered by reread at full strength",
     }
@@ -1567,6 +1570,10 @@ class C04(Property):
             cs.append({"src": none, "chain": [{"m": "impute", "a": [stat, True, None]}], "hist": [full, part(1), full, par]})
             cs.append({"src": {"kind": "sup_xy", "X": [[1, None], [None, 4], [0.5, 7], [2, 2]], "Y": ["a", "b", "a", "b"], "label_type": "c"},
                        "chain": [{"m": "impute", "a": [stat, False, 2]}], "hist": [full, full, par]})
+        # a finalized environment whose first batch is the short one, finalized again by save()/from_save() (F7)
+        cs.append({"src": dict(lin, n=7), "chain": [{"m": "batch", "a": [5]}, {"m": "shuffle", "a": [0]}, {"m": "reservoir", "a": [3, 5, False]}],
+                   "hist": [full, {"op": "save", "on": 0}, {"op": "full", "on": 1}, part(1, 1), full]})
+        cs.append({"src": dict(lin, n=7), "chain": [{"m": "batch", "a": [5]}], "hist": [full, {"op": "save", "on": 0}, {"op": "full", "on": 1}, {"op": "pickle", "on": 1}, {"op": "full", "on": 2}]})
         # empty environments (EmptyCheck), densify lookup
         cs.append({"src": dict(lin, n=0), "chain": [], "hist": [full, full, par, {"op": "materialize", "on": 0}, {"op": "full", "on": 1}]})
         cs.append({"src": lin, "chain": [{"m": "take", "a": [0, False]}], "hist": [full, part(1), full]})
